@@ -371,6 +371,10 @@ func cmdVerify(argv []string) {
 				} else {
 					oo.Status = "discharged"
 				}
+			case r.Status == "unsat" && disagree(r.ByName):
+				// thorough tier: every solver ran to completion and they contradict each other
+				oo.Status = "undecided"
+				oo.Output = fmt.Sprintf("solvers disagree: %v", r.ByName)
 			case r.Status == "unsat":
 				oo.Status = "discharged"
 			case r.Status == "sat":
@@ -436,6 +440,20 @@ func cmdVerify(argv []string) {
 		}
 		fmt.Printf("load %.1fs ssa %.1fs vcgen %.1fs solve %.1fs\n", res.LoadS, res.SsaS, res.GenS, res.SolveS)
 	}
+}
+
+// disagree: some solver refuted the negated goal while another found a model for it.
+func disagree(by map[string]string) bool {
+	sat, unsat := false, false
+	for _, v := range by {
+		if v == "sat" {
+			sat = true
+		}
+		if v == "unsat" {
+			unsat = true
+		}
+	}
+	return sat && unsat
 }
 
 // kindMatch: exact kind, or the kind after a "loopN." prefix (loop0.decreases matches "decreases").
